@@ -20,9 +20,13 @@ EXTENDS Naturals, Sequences, FiniteSets, TLC, Json, IOUtils
 
 CONSTANTS Depth, Mode   \* Mode = "terms" | "streams"
 
-Scalars == {"str", "int64", "bool", "float64", "userscalar", "enum", "uuid", "json"}
+\* userscalar2 extends userscalar (a chain of two schema-defined scalars)
+Scalars == {"str", "int64", "bool", "float64", "userscalar", "userscalar2", "enum", "uuid", "json"}
+\* shapes over one link that differ only in the link properties selected
+LinkShapes == {<<"linkshape", v>> : v \in {"with", "without", "both"}}
 
 T0 == {<<"S", s>> : s \in Scalars}
+T0x == T0 \cup LinkShapes
 Wrap(sub) ==
     {<<"tuple", a, b>> : a \in sub, b \in T0}
     \cup {<<"tuple", a, b>> : a \in T0, b \in sub}
@@ -32,9 +36,9 @@ Wrap(sub) ==
     \cup {<<"shape_computed", a>> : a \in sub}      \* T { c := <a> }
     \cup {<<"shape_multi", a>> : a \in sub}         \* T { multi c := {<a>, <a>} }
     \cup {<<"free", a, b>> : a \in sub, b \in T0}   \* free object { x := a, y := b }
-Terms == IF Depth = 0 THEN T0
-         ELSE IF Depth = 1 THEN T0 \cup Wrap(T0)
-         ELSE T0 \cup Wrap(T0) \cup Wrap(Wrap(T0))
+Terms == IF Depth = 0 THEN T0x
+         ELSE IF Depth = 1 THEN T0x \cup Wrap(T0x)
+         ELSE T0x \cup Wrap(T0x) \cup Wrap(Wrap(T0))
 
 Streams == IF Mode = "streams" THEN JsonDeserialize(IOEnv.TRACE_FILE) ELSE <<>>
 \* stream: sequence of blocks [tag, id, refs, anno]  (anno: TRUE for annotation blocks,
